@@ -833,6 +833,30 @@ func runC14(r *Report) {
 			if pre == "tunnox:http_domain:next_id" {
 				got = hybridCategory(r, pre)
 			}
+			if got != "shared" {
+				// the family may be listed by its concrete sub-families instead of one broad prefix: then
+				// every key prefix of that family the constants package declares must classify as shared
+				n, all := 0, true
+				if cp := r.P.ByPath[Module+"/internal/constants"]; cp != nil {
+					for _, name := range cp.Types.Scope().Names() {
+						c, ok := cp.Types.Scope().Lookup(name).(*types.Const)
+						if !ok || c.Val().Kind() != constant.String {
+							continue
+						}
+						v := constant.StringVal(c.Val())
+						if !strings.HasPrefix(v, pre) || v == pre {
+							continue
+						}
+						n++
+						if hybridCategory(r, v+"x") != "shared" {
+							all = false
+						}
+					}
+				}
+				if n > 0 && all {
+					got = "shared"
+				}
+			}
 			r.Ob("R-C14-3", 0, got == "shared", fmt.Sprintf("cross-node key family %q classifies as %s (want shared: visible to every node, TTL'd, not persisted)", pre, got), hybPkg, "cross-node:"+pre)
 		}
 		// the runtime-only families are the ones the package itself declares (var RuntimePrefixes),
